@@ -24,39 +24,42 @@ def splitsBetween (splits : List Split) (added : List Nat) (height prevHeight : 
     if !acc.2.contains i && height < s.height && prevHeight ≥ s.height then (acc.1 ++ [(s.height, s.before)], acc.2 ++ [i])
     else acc) ([], added)
 
-/-- the loop of `Branch.GetLocatorHashes`; fuel bounds the number of iterations. -/
+/-- the loop of `Branch.GetLocatorHashes`; fuel bounds the number of iterations. Entries are tagged
+    `true` when they are headers of the chain (as opposed to split fork points). -/
 def locLoop (r : Repo) (bi : Nat) (splits : List Split) (max : Nat) :
-    Nat → Int → Int → Int → List HH → List Nat → List HH × List Nat × Int
+    Nat → Int → Int → Int → List (HH × Bool) → List Nat → List (HH × Bool) × List Nat × Int
   | 0, height, _, _, res, added => (res, added, height)
   | fuel + 1, height, prevHeight, delta, res, added =>
     let (ins, added) := if prevHeight ≠ -1 then splitsBetween splits added height prevHeight else ([], added)
-    let res := res ++ ins
+    let res := res ++ ins.map (fun e => (e, false))
     match r.at bi height with
     | none => (res, added, height)
     | some d =>
-      let res := res ++ [(height, d.hdr.id)]
+      let res := res ++ [((height, d.hdr.id), true)]
       if res.length ≥ max then (res, added, height)
       else if height ≤ delta then (res, added, height)
       else locLoop r bi splits max fuel (height - delta) height (delta * 2) res added
 
-def branchLocator (r : Repo) (bi : Nat) (splits : List Split) (delta : Int) (max : Nat) : List HH :=
+/-- `Branch.GetLocatorHashes(splits, delta, max)` with the chain/split tag. -/
+def branchLocatorTagged (r : Repo) (bi : Nat) (splits : List Split) (delta : Int) (max : Nat) : List (HH × Bool) :=
   let b := r.br bi
   let height := b.height
   if height = 0 then
     match b.last? with
-    | some l => [(0, l.hdr.id)]
+    | some l => [((0, l.hdr.id), true)]
     | none => []
   else
     let (res, added, h) := locLoop r bi splits max (height.toNat + 2) (height - 1) (-1) delta [] []
-    let tail := splits.zipIdx.foldl (fun (acc : List HH) (s, i) =>
-      if !added.contains i && h > s.height then acc ++ [(s.height, s.before)] else acc) []
+    let tail := splits.zipIdx.foldl (fun (acc : List (HH × Bool)) (s, i) =>
+      if !added.contains i && h > s.height then acc ++ [((s.height, s.before), false)] else acc) []
     res ++ tail
 
-/-- `removeDuplicateHashes` (repaired): drops a hash equal to the one kept just before it. -/
-def removeDuplicateHashes : List Nat → List Nat
-  | [] => []
-  | [x] => [x]
-  | x :: y :: rest => if x = y then removeDuplicateHashes (y :: rest) else x :: removeDuplicateHashes (y :: rest)
+def branchLocator (r : Repo) (bi : Nat) (splits : List Split) (delta : Int) (max : Nat) : List HH :=
+  (branchLocatorTagged r bi splits delta max).map (·.1)
+
+/-- `removeDuplicateHashes` (repaired): keeps the first occurrence of every hash. -/
+def removeDuplicateHashes (l : List Nat) : List Nat :=
+  (l.foldl (fun (acc : List Nat) x => if acc.contains x then acc else acc ++ [x]) [])
 
 /-- `Repository.GetLocatorHashes(max)`; `none` = nil dereference on an empty side branch. -/
 def locator (r : Repo) (max : Nat) : List Nat :=
